@@ -20,11 +20,14 @@ Definition u32z (z : Z) : N := Z.to_N (z mod 4294967296)%Z.
 
 (* ---------- net.IP ---------- *)
 
-(* IP.To4: the 4-byte form of an IPv4 or IPv4-mapped address, else nil *)
+(* IP.To4: the 4-byte form of an IPv4 address or of a 16-byte address whose
+   first ten bytes are zero and the next two 0xff, else nil *)
 Definition to4 (ip : list N) : option (list N) :=
   match ip with
   | [_; _; _; _] => Some ip
-  | [0; 0; 0; 0; 0; 0; 0; 0; 0; 0; 255; 255; a; b; c; d] => Some [a; b; c; d]
+  | [z0; z1; z2; z3; z4; z5; z6; z7; z8; z9; f0; f1; a; b; c; d] =>
+      if forallb (N.eqb 0) [z0; z1; z2; z3; z4; z5; z6; z7; z8; z9] && (f0 =? 255) && (f1 =? 255)
+      then Some [a; b; c; d] else None
   | _ => None
   end.
 
@@ -238,7 +241,7 @@ Definition rep_header (h : header) : bool :=
   fit_header h && (0 <=? h_nsec h)%Z && (h_nsec h <? 1000000000)%Z && (h_nsec h mod 1000 =? 0)%Z
   && (h_port h <? 65536) && bytes_ok (h_src h).
 Definition rep_packet (p : packet) : bool :=
-  fit_packet p && (p_off p mod 1000000 =? 0)%Z && bytes_ok (p_payload p).
+  fit_packet p && (p_off p mod 1000000 =? 0)%Z.
 Definition rep (h : header) (ps : list packet) : bool :=
   rep_header h && forallb rep_packet ps.
 
